@@ -8,4 +8,8 @@ for tool in ('verus',):
 r = subprocess.run(['verus', '--version'], capture_output=True, text=True)
 print(r.stdout.strip())
 os.makedirs(os.path.join(os.path.dirname(os.path.dirname(os.path.abspath(__file__))), 'build'), exist_ok=True)
+# build the concrete-probe binary once (cargo is incremental afterwards); a failure here only disables the probes
+from vk import cex
+exe = cex.build_replay()
+print('redo-replay:', exe or ('NOT BUILT: ' + cex._built.get('err', '')))
 sys.exit(0 if ok and r.returncode == 0 else 1)
